@@ -327,6 +327,8 @@ pub struct JaxNoise {
     /// end of the four files: 0 one newline after the last line, 1 no newline after the last line,
     /// 2 an additional blank line at the end of hp.obo and phenotype.hpoa
     pub eof: u8,
+    /// header / comment lines longer than a reader buffer (8 KiB) in all four files
+    pub long_lines: bool,
 }
 
 const TAG_POOL: [&str; 8] = [
@@ -363,6 +365,9 @@ pub fn render_jax(f: &Facts, noise: &JaxNoise) -> JaxFiles {
             f.version.0, f.version.1, f.version.2
         ));
         obo.push_str("saved-by: verif\nontology: hp\n");
+        if noise.long_lines {
+            obo.push_str(&format!("remark: {}\n", "long remark ".repeat(800)));
+        }
     }
     let mut tag_i = 0usize;
     let mut typedefs = noise.typedefs as usize;
@@ -424,18 +429,23 @@ pub fn render_jax(f: &Facts, noise: &JaxNoise) -> JaxFiles {
     let mut hpoa = String::new();
     if noise.hpoa_head % 4 == 0 || noise.hpoa_head % 4 == 2 {
         hpoa.push_str("#description: \"HPO annotations for rare diseases\"\n#version: 2024-01-01\n");
+        if noise.long_lines {
+            hpoa.push_str(&format!("#contributors: {}\n", "somebody; ".repeat(1000)));
+        }
     }
     if noise.hpoa_head % 4 < 2 {
         hpoa.push_str("database_id\tdisease_name\tqualifier\thpo_id\treference\tevidence\tonset\tfrequency\tsex\tmodifier\taspect\tbiocuration\n");
     }
     let mut g2p = String::new();
     let mut p2g = String::new();
+    // (a header line longer than a reader buffer when `long_lines` is set)
+    let pad = if noise.long_lines { "\textra_column".repeat(700) } else { String::new() };
     if noise.gene_header == 0 {
-        g2p.push_str("#Format: entrez-gene-id<tab>entrez-gene-symbol<tab>HPO-Term-ID\n");
-        p2g.push_str("#Format: HPO-id<tab>HPO label<tab>entrez-gene-id<tab>entrez-gene-symbol\n");
+        g2p.push_str(&format!("#Format: entrez-gene-id<tab>entrez-gene-symbol<tab>HPO-Term-ID{pad}\n"));
+        p2g.push_str(&format!("#Format: HPO-id<tab>HPO label<tab>entrez-gene-id<tab>entrez-gene-symbol{pad}\n"));
     } else {
-        g2p.push_str("ncbi_gene_id\tgene_symbol\thpo_id\thpo_name\tfrequency\tdisease_id\n");
-        p2g.push_str("hpo_id\thpo_name\tncbi_gene_id\tgene_symbol\tdisease_id\n");
+        g2p.push_str(&format!("ncbi_gene_id\tgene_symbol\thpo_id\thpo_name\tfrequency\tdisease_id{pad}\n"));
+        p2g.push_str(&format!("hpo_id\thpo_name\tncbi_gene_id\tgene_symbol\tdisease_id{pad}\n"));
     }
     let mut not_rows = noise.not_rows.clone();
     let mut dec_rows = noise.decipher_rows.clone();
